@@ -129,7 +129,9 @@ def run(prop, tier, seed, theorems, select, oracle, nontrivial, gen_force=None, 
             R.broken.append(("coqchk", {"ok": cok, "axioms": axioms, "tail": tail}))
 
     # 2. correspondence model <-> implementation, property cone
-    gen_fn = case_gen or (lambda r, k, prefix='c': epflow.gen_cases(r, k, force=gen_force, multi_eval=multi_eval, prefix=prefix))
+    # properties stated with a floor on the values (zero or >= 0.01 kWh) keep it; the others also get carriers with a tiny use
+    tweak = None if prop in ("C01", "C11") else (lambda r, b: epflow.tiny_use(r, b, 0.1))
+    gen_fn = case_gen or (lambda r, k, prefix='c': epflow.gen_cases(r, k, force=gen_force, multi_eval=multi_eval, prefix=prefix, tweak=tweak))
     cases = corpus_cases(prop) + gen_fn(rng, n_model)
     epflow.run_impl(cases)
     errs = epflow.run_model(cases, prop)
